@@ -204,19 +204,28 @@ mod leaf {
     leaf_convert!(q_c13_leaf_none, 6, ValueKind::None, 1, [1, 2]);
     leaf_convert!(q_c13_leaf_bool, 6, ValueKind::Bool, 2, [1, 2, 3]);
     leaf_convert!(q_c13_leaf_u8, 6, ValueKind::U8, 2, [1, 2]);
+    #[cfg(not(verif_quick))]
     leaf_convert!(q_c13_leaf_i8, 6, ValueKind::I8, 2, [1, 2]);
     leaf_convert!(q_c13_leaf_u16, 8, ValueKind::U16, 4, [1, 2, 3, 4]);
+    #[cfg(not(verif_quick))]
     leaf_convert!(q_c13_leaf_i16, 8, ValueKind::I16, 4, [1, 2, 3, 4]);
     leaf_convert!(q_c13_leaf_u32, 10, ValueKind::U32, 6, [1, 2, 5]);
+    #[cfg(not(verif_quick))]
     leaf_convert!(q_c13_leaf_i32, 10, ValueKind::I32, 6, [1, 2, 5]);
+    #[cfg(not(verif_quick))]
     leaf_convert!(q_c13_leaf_u64, 14, ValueKind::U64, 10, [1, 2, 9]);
+    #[cfg(not(verif_quick))]
     leaf_convert!(q_c13_leaf_i64, 14, ValueKind::I64, 10, [1, 2, 9]);
+    #[cfg(not(verif_quick))]
     leaf_convert!(q_c13_leaf_f32, 10, ValueKind::F32, 5, [1, 4, 5]);
     leaf_convert!(q_c13_leaf_f64, 14, ValueKind::F64, 9, [1, 8, 9]);
     leaf_convert!(q_c13_leaf_uuid, 22, ValueKind::Uuid, 17, [1, 16, 17]);
     leaf_convert!(q_c13_leaf_sender, 22, ValueKind::Sender, 17, [1, 16, 17]);
+    #[cfg(not(verif_quick))]
     leaf_convert!(q_c13_leaf_receiver, 22, ValueKind::Receiver, 17, [1, 16, 17]);
+    #[cfg(not(verif_quick))]
     leaf_convert!(q_c13_leaf_object_id, 38, ValueKind::ObjectId, 33, [1, 17, 32, 33]);
+    #[cfg(not(verif_quick))]
     leaf_convert!(q_c13_leaf_service_id, 70, ValueKind::ServiceId, 65, [1, 64]);
 
     /// Strings: copied without UTF-8 validation, canonical length prefix.
@@ -293,23 +302,33 @@ mod shapes {
     }
 
     cshape!(some_u8, 12, 2, |x, y, z| [SOME, U8, x] => [SOME, U8, x]);
+    #[cfg(not(verif_quick))]
     cshape!(enum_u8, 12, 2, |x, y, z| [ENUM, 9, U8, x] => [ENUM, 9, U8, x]);
     cshape!(enum_wide_id, 12, 2, |x, y, z| [ENUM, 255, y, z, 7, if z == 0 { 1 } else { z }, U8, x] => [ENUM, 255, y, z, 7, if z == 0 { 1 } else { z }, U8, x]);
     // a non-canonical id (wide form holding a small value) is re-encoded in the short form
     cshape!(enum_noncanonical_id, 12, 2, |x, y, z| [ENUM, 255, 9, 0, 0, 0, U8, x] => [ENUM, 9, U8, x]);
+    #[cfg(not(verif_quick))]
     cshape!(enum_around_vec2, 12, 3, |x, y, z| [ENUM, 9, VEC2, SOME, U8, x, NONE] => [ENUM, 9, VEC1, 1, U8, x]);
+    #[cfg(not(verif_quick))]
     cshape!(some_around_vec2, 12, 2, |x, y, z| [SOME, VEC2, NONE] => [SOME, VEC1, 0]);
     cshape!(vec2_two, 12, 2, |x, y, z| [VEC2, SOME, U8, x, SOME, U8, y, NONE] => [VEC1, 2, U8, x, U8, y]);
     cshape!(vec2_empty, 12, 1, |x, y, z| [VEC2, NONE] => [VEC1, 0]);
+    #[cfg(not(verif_quick))]
     cshape!(vec1_two, 12, 2, |x, y, z| [VEC1, 2, U8, x, U8, y] => [VEC1, 2, U8, x, U8, y]);
     cshape!(vec2_nested, 12, 3, |x, y, z| [VEC2, SOME, VEC2, SOME, U8, x, NONE, NONE] => [VEC1, 1, VEC1, 1, U8, x]);
+    #[cfg(not(verif_quick))]
     cshape!(vec2_in_vec1, 12, 3, |x, y, z| [VEC1, 1, VEC2, SOME, U8, x, NONE] => [VEC1, 1, VEC1, 1, U8, x]);
     cshape!(bytes2_segments, 12, 1, |x, y, z| [BYTES2, 2, x, y, 1, z, 0] => [BYTES1, 3, x, y, z]);
+    #[cfg(not(verif_quick))]
     cshape!(bytes2_single, 12, 1, |x, y, z| [BYTES2, 3, x, y, z, 0] => [BYTES1, 3, x, y, z]);
+    #[cfg(not(verif_quick))]
     cshape!(bytes2_empty, 12, 1, |x, y, z| [BYTES2, 0] => [BYTES1, 0]);
+    #[cfg(not(verif_quick))]
     cshape!(bytes1, 12, 1, |x, y, z| [BYTES1, 3, x, y, z] => [BYTES1, 3, x, y, z]);
     cshape!(struct2_two, 14, 2, |x, y, z| [STRUCT2, SOME, 3, U8, x, SOME, 250, U8, y, NONE] => [STRUCT1, 2, 3, U8, x, 250, U8, y]);
+    #[cfg(not(verif_quick))]
     cshape!(struct2_empty, 12, 1, |x, y, z| [STRUCT2, NONE] => [STRUCT1, 0]);
+    #[cfg(not(verif_quick))]
     cshape!(struct1_two, 14, 2, |x, y, z| [STRUCT1, 2, 3, U8, x, 250, U8, y] => [STRUCT1, 2, 3, U8, x, 250, U8, y]);
     cshape!(struct2_with_vec2_field, 14, 3, |x, y, z| [STRUCT2, SOME, 3, VEC2, SOME, U8, x, NONE, NONE] => [STRUCT1, 1, 3, VEC1, 1, U8, x]);
 
@@ -431,15 +450,22 @@ mod keys {
     }
 
     keyed_convert!(q_c13_keys_u8, 12, tags::U8, 1, 1, |s| true, [s[0]], [s[0]]);
+    #[cfg(not(verif_quick))]
     keyed_convert!(q_c13_keys_i8, 12, tags::I8, 1, 1, |s| true, [s[0]], [s[0]]);
     keyed_convert!(q_c13_keys_u16_long, 14, tags::U16, 3, 3, |s| s[1] != 0, [255, s[0], s[1]], [255, s[0], s[1]]);
+    #[cfg(not(verif_quick))]
     keyed_convert!(q_c13_keys_i16_long, 14, tags::I16, 3, 3, |s| s[1] != 0, [255, s[0], s[1]], [255, s[0], s[1]]);
     // non-canonical input key: two-byte form holding a small value is re-encoded in one byte
     keyed_convert!(#[cfg(any(verif_unit = "all", verif_unit = "convert_keys_t"))] t_c13_keys_u16_noncanonical, 14, tags::U16, 2, 1, |s| s[0] <= 253, [254, s[0]], [s[0]]);
+    #[cfg(not(verif_quick))]
     keyed_convert!(q_c13_keys_u32_long, 16, tags::U32, 5, 5, |s| s[3] != 0, [255, s[0], s[1], s[2], s[3]], [255, s[0], s[1], s[2], s[3]]);
+    #[cfg(not(verif_quick))]
     keyed_convert!(q_c13_keys_i32_long, 16, tags::I32, 5, 5, |s| s[3] != 0, [255, s[0], s[1], s[2], s[3]], [255, s[0], s[1], s[2], s[3]]);
+    #[cfg(not(verif_quick))]
     keyed_convert!(q_c13_keys_u64_long, 20, tags::U64, 9, 9, |s| s[7] != 0, [255, s[0], s[1], s[2], s[3], s[4], s[5], s[6], s[7]], [255, s[0], s[1], s[2], s[3], s[4], s[5], s[6], s[7]]);
+    #[cfg(not(verif_quick))]
     keyed_convert!(q_c13_keys_i64_long, 20, tags::I64, 9, 9, |s| s[7] != 0, [255, s[0], s[1], s[2], s[3], s[4], s[5], s[6], s[7]], [255, s[0], s[1], s[2], s[3], s[4], s[5], s[6], s[7]]);
+    #[cfg(not(verif_quick))]
     keyed_convert!(q_c13_keys_uuid, 30, tags::Uuid, 16, 16, |s| true, s, s);
     keyed_convert!(q_c13_keys_string, 14, tags::String, 3, 3, |s| true, [2, s[0], s[1]], [2, s[0], s[1]]);
     keyed_convert!(#[cfg(any(verif_unit = "all", verif_unit = "convert_keys_t"))] t_c13_keys_u32_short, 12, tags::U32, 1, 1, |s| true, [251], [251]);
@@ -475,6 +501,10 @@ mod depth {
     /// every nesting step of the converter goes through `convert_next` or an inline
     /// `Convert::new(src, dst, epoch, self.depth)`: the child is one level deeper. With a leaf child
     /// (`None`, one byte) the step succeeds iff parent + 1 <= 32.
+    // not registered: with a symbolic parent depth the kind dispatch behind convert_next is explored
+    // arm by arm and does not finish in 10 min; the boundary depths are covered by the shape
+    // harnesses (concrete 0 / 32-levels / 33-levels)
+    #[cfg(verif_experimental)]
     #[kani::proof]
     #[kani::unwind(6)]
     fn q_c13_depth_convert_next() {
